@@ -4,12 +4,16 @@ From V Require Import Model.Removal.
 Import ListNotations.
 Open Scope N_scope.
 
-Lemma refused_unchanged_l : forall s o s' e, step s o = (s', Err e) -> s' = s.
+(* every refusal returns the state it was given, except one: a put of a dataset that has a location row but no records (a state
+   only the stale-trash-row defect produces; excluded by the bridge invariant, see refused_unchanged_l below) *)
+Definition put_on_recordless (s : st) (o : op) : bool :=
+  match o with Put d _ _ => negb (has_rec s d) && memN d (loc s) | _ => false end.
+Lemma refused_unchanged_raw : forall s o s' e, put_on_recordless s o = false -> step s o = (s', Err e) -> s' = s.
 Proof.
-  intros s o s' e H. destruct o; simpl in H;
+  intros s o s' e G H. destruct o; simpl in H, G;
   repeat match type of H with
   | context [match ?x with _ => _ end] => destruct x eqn:?; simpl in H
-  end; try congruence; inversion H; reflexivity.
+  end; simpl in G; try congruence; try (inversion H; reflexivity).
 Qed.
 
 (* ---------- membership ---------- *)
@@ -129,6 +133,13 @@ Record wf (s : st) : Prop := {
 Lemma wf_init : wf init.
 Proof. constructor; simpl; intros; try contradiction; discriminate. Qed.
 
+Lemma refused_unchanged_l : forall s o s' e, wf s -> step s o = (s', Err e) -> s' = s.
+Proof.
+  intros s o s' e W H. apply (refused_unchanged_raw s o s' e); [| exact H].
+  destruct o; try reflexivity. simpl. destruct (memN d (loc s)) eqn:M; [| apply andb_false_r].
+  apply memN_In in M. rewrite (w_loc_rec s W d M). reflexivity.
+Qed.
+
 Lemma wf_same_datastore : forall s s', loc s' = loc s -> trash s' = trash s -> recs s' = recs s -> wf s -> wf s'.
 Proof.
   intros s s' E1 E2 E3 [A B C D]. constructor; unfold has_rec in *; rewrite ?E1, ?E2, ?E3; assumption.
@@ -226,13 +237,14 @@ Lemma wf_step : forall s o, wf s -> safe s o = true -> wf (exec s o).
 Proof.
   intros s o W S. unfold exec. destruct o; simpl.
   - (* RegColl *) destruct (ctype s c); simpl; [exact W | eapply wf_same_datastore; [| | | exact W]; reflexivity].
-  - (* SetChain *) destruct (ctype s c) as [[] |]; simpl; try exact W.
-    destruct (negb _); simpl; [exact W |]. destruct (memN c children); simpl; [exact W |].
+  - (* SetChain *) destruct (negb _); simpl; [exact W |]. destruct (ctype s c) as [[] |]; simpl; try exact W.
+    destruct (existsb _ children); simpl; [exact W |].
     eapply wf_same_datastore; [| | | exact W]; reflexivity.
   - (* Put *) destruct (ctype s r) as [[] |]; simpl; try exact W.
     destruct (ds_get s d).
-    + destruct (negb _); simpl; [exact W |]. destruct (has_rec s d || memN d (loc s)) eqn:E; simpl; [exact W |].
-      apply orb_false_iff in E. destruct E as [E1 E2]. apply wf_store; [exact E1 | apply memN_false; exact E2 | exact W].
+    + destruct (negb _); simpl; [exact W |]. destruct (has_rec s d) eqn:E1; simpl; [exact W |].
+      destruct (memN d (loc s)) eqn:E2; simpl; [eapply wf_same_datastore; [| | | exact W]; reflexivity |].
+      apply wf_store; [exact E1 | apply memN_false; exact E2 | exact W].
     + destruct (existsb _ _); simpl; [exact W |]. destruct (has_rec s d || memN d (loc s)) eqn:E; simpl; [exact W |].
       apply orb_false_iff in E. destruct E as [E1 E2]. apply wf_store; [exact E1 | apply memN_false; exact E2 | exact W].
   - (* Tag *) destruct (ctype s c) as [[] |]; simpl; try exact W.
